@@ -11,10 +11,17 @@ def _modules():
             yield f[:-3]
 
 
+BROKEN = {}
+
+
 def _load():
     eng = {}
     for name in _modules():
-        mod = importlib.import_module("harness.bindings." + name)
+        try:
+            mod = importlib.import_module("harness.bindings." + name)
+        except Exception as ex:          # a broken binding must not take the other engines down
+            BROKEN[name] = repr(ex)
+            continue
         eng[name] = sorted(getattr(mod, "META", {}).keys())
     return eng
 
